@@ -1,8 +1,9 @@
 #!/bin/sh
-# Offline setup after a fresh restore: nothing to fetch. Creates the git-ignored scratch
-# directories the checks write into; the Kani builds themselves happen inside each check
-# (cargo kani is incremental, target dirs live under /verif/.target).
-set -e
+# Offline setup after a fresh restore: nothing is fetched. Creates the git-ignored scratch
+# directories and warms the Kani builds (dependencies of the harness crates) so that the first
+# check does not pay for them. Every check rebuilds what it needs from /repo's working tree.
 cd "$(dirname "$0")"
 mkdir -p .target .logs kani/gen/playback replays evidence
+export CARGO_NET_OFFLINE=true
+python3 tools/warm.py || true
 exit 0
